@@ -8,15 +8,89 @@ import (
 
 	"verifharness/sym"
 
+	"github.com/blinklabs-io/gouroboros/cbor"
 	"github.com/blinklabs-io/gouroboros/connection"
 	"github.com/blinklabs-io/gouroboros/protocol"
+	"github.com/blinklabs-io/gouroboros/protocol/localstatequery"
 	"github.com/blinklabs-io/gouroboros/protocol/localtxmonitor"
 	"github.com/blinklabs-io/gouroboros/protocol/peersharing"
 )
 
 var Registry = map[string]func(){
+	"StateQuery":  StateQuery,
 	"TxMonitor":   TxMonitor,
 	"PeerSharing": PeerSharing,
+}
+
+// StateQuery: one caller walks through acquire, query, (re-acquire | release + acquire |
+// nothing), query on the real local-state-query client while a second goroutine runs the
+// message handler; the server answers every query with a fresh number (5, 6, ...). Every call
+// that asks for the current era sends a query of its own and returns the answer to it -- in
+// particular never an answer obtained before a re-acquire.
+func StateQuery() {
+	between := sym.Param("between") // 0 nothing, 1 re-acquire, 2 release then acquire
+	c := localstatequery.VerifNewClient(connID())
+	inbox := make(chan protocol.Message, 4)
+	handlerErr := false
+	handler := func() {
+		for m := range inbox {
+			if localstatequery.VerifClientHandle(c, m) != nil {
+				handlerErr = true
+			}
+		}
+	}
+	var era1, era2 int
+	var errs []error
+	finished := false
+	caller := func() {
+		errs = append(errs, c.Acquire(nil))
+		e, err := c.GetCurrentEra()
+		era1, errs = e, append(errs, err)
+		switch between {
+		case 1:
+			errs = append(errs, c.Acquire(nil))
+		case 2:
+			errs = append(errs, c.Release(), c.Acquire(nil))
+		}
+		e, err = c.GetCurrentEra()
+		era2, errs = e, append(errs, err)
+		finished = true
+	}
+	queries := 0
+	closed := false
+	env := func() bool {
+		m := protocol.VerifTakeSent(c.Protocol)
+		if m == nil {
+			if finished && !closed {
+				closed = true
+				close(inbox)
+				return true
+			}
+			return false
+		}
+		switch m.(type) {
+		case *localstatequery.MsgQuery:
+			answer := 5 + queries
+			queries++
+			raw := []byte{byte(answer)} // CBOR unsigned integer
+			if sym.Symbolic() {
+				cbor.VerifDepositFor(raw, &answer)
+			}
+			inbox <- localstatequery.NewMsgResult(raw)
+		case *localstatequery.MsgRelease:
+		default: // every flavour of acquire / re-acquire
+			inbox <- localstatequery.NewMsgAcquired()
+		}
+		return true
+	}
+	sym.RunGoroutines(env, caller, handler)
+	sym.Reach("ran")
+	sym.Assert(finished && !handlerErr, "every call returns")
+	for _, e := range errs {
+		sym.Assert(e == nil, "no call fails")
+	}
+	sym.Assert(queries == 2, "each era request is put to the server")
+	sym.Assert(era1 == 5 && era2 == 6, "each call returns the answer to its own query, also across re-acquire and release")
 }
 
 func connID() connection.ConnectionId {
